@@ -1,4 +1,6 @@
 import EgVerif.Proofs.Lifecycle
+import EgVerif.Proofs.LifecycleIR
+import EgVerif.Proofs.LifecycleShutdown
 import EgVerif.Gen.FactsC20
 /-!
 # C20 — objects are initialised, inherited and closed exactly once as the configuration changes
@@ -424,6 +426,141 @@ theorem source_facts :
     Gen.FactsC20.applyConfigDeletedAssigns = 2 ∧
     Gen.FactsC20.newWatcherRanges = ["or.entities"] := by decide
 
+/-! ## regenerated tie by translation (`notes/IR.md`)
+
+`Gen.FactsC20IR` is re-translated on every run (go/ast → Lean, `harness/factextract/irlib.go` with
+`facts_c20_ir.go`) from the current bodies of `ObjectRegistry.applyConfig` and
+`TrafficController._cleanSpace`; the proofs are in `Proofs/LifecycleIR.lean` under the same names. -/
+
+/-- The two diff loops of `ObjectRegistry.applyConfig`, as translated from the source, are the model's
+`diff`: names absent from the snapshot are deleted; a new name is created, an equal spec skipped, a
+change of kind recorded as deleted + created, any other change as updated — for every snapshot index,
+every registry map with unique keys (a Go map) and every snapshot. (The per-watcher notification
+closure is translated separately: `applyConfig_notify_regenerated_from_source`.) -/
+theorem applyConfig_regenerated_from_source (g : Nat) (ents : Map Name Entity) (cfg : Config)
+    (wf : ents.WF) :
+    Gen.FactsC20IR.extractionFailed = false ∧ Gen.FactsC20IR.applyConfigIR g ents cfg = diff g ents cfg :=
+  ⟨by decide, EgVerif.Lifecycle.applyConfig_regenerated_from_source g ents cfg wf⟩
+
+/-- The hypothesis of the previous theorem holds in every reachable state, so on every step of every
+history the registry part of the model's `step` is the translated source. -/
+theorem applyConfig_tied_on_every_history (P : Params) (ok : P.WF) (h : List Item) (wf : HistWF h)
+    (cfg : Config) :
+    let s := run P Sys.init h
+    s.ents.WF ∧ (step P s (.snap cfg)).ents = (Gen.FactsC20IR.applyConfigIR s.g s.ents cfg).ents := by
+  intro s
+  have inv := (run_spec P ok 0 h Sys.init (inv_init P) wf).2.1
+  exact ⟨inv.wf, by rw [EgVerif.Lifecycle.applyConfig_regenerated_from_source _ _ _ inv.wf]; rfl⟩
+
+/-- The per-watcher closure of `applyConfig` (filter each of deleted / created / updated with the
+watcher's filter into the event, maintain `watcher.entities`, send the event iff it is not empty), as
+translated from the source, is the model's `notify` plus `stepW`'s "an empty event is not sent" — for
+every watcher, every `watcher.entities`, every diff whose maps have unique keys. -/
+theorem applyConfig_notify_regenerated_from_source (P : Params) (wents : Map Name Entity) (d : Diff)
+    (hd : d.deleted.WF) (hc : d.created.WF) (hu : d.updated.WF) :
+    Gen.FactsC20IR.extractionFailed = false ∧
+    Gen.FactsC20IR.notifyIR P wents d.deleted d.created d.updated false =
+      ((notify P wents d).1, (notify P wents d).2, !(notify P wents d).2.isEmpty) :=
+  ⟨by decide, EgVerif.Lifecycle.applyConfig_notify_regenerated_from_source P wents d hd hc hu⟩
+
+/-- … and its hypotheses hold on every step of every history: what `stepW` hands to the consumer is
+what the translated closure computes from the translated diff. -/
+theorem applyConfig_notify_tied_on_every_history (P : Params) (ok : P.WF) (h : List Item)
+    (wf : HistWF h) (cfg : Config) :
+    let s := run P Sys.init h
+    let d := Gen.FactsC20IR.applyConfigIR s.g s.ents cfg
+    Gen.FactsC20IR.notifyIR P s.w.wents d.deleted d.created d.updated false =
+      ((notify P s.w.wents (diff s.g s.ents cfg)).1, (notify P s.w.wents (diff s.g s.ents cfg)).2,
+        !(notify P s.w.wents (diff s.g s.ents cfg)).2.isEmpty) := by
+  intro s d
+  have inv := (run_spec P ok 0 h Sys.init (inv_init P) wf).2.1
+  have hd : d = diff s.g s.ents cfg := EgVerif.Lifecycle.applyConfig_regenerated_from_source _ _ _ inv.wf
+  have dwf := diff_wf s.g s.ents cfg inv.wf
+  rw [hd]
+  exact EgVerif.Lifecycle.applyConfig_notify_regenerated_from_source P _ _ dwf.2.1 dwf.2.2.1 dwf.2.2.2
+
+/-- `Supervisor.handleEvent`, as translated from the source (three `range event.X` loops over the
+`businessControllers` sync.Map: `LoadAndDelete` + `CloseWithRecovery`; "already existed" check,
+`InitWithRecovery`, `Store`; `Load`, `InheritWithRecovery`, `Store`), is the model's `handleEvent` with
+the supervisor's consumer shape `supParams P` (one map, create checks, no namespace, list order) — for
+every consumer state, event and fault assignment; `supParams P` meets `Params.WF`, so every theorem
+of this file applies to it. -/
+theorem handleEvent_regenerated_from_source (P : Params) (c : CState) (ev : Event) :
+    Gen.FactsC20IR.extractionFailed = false ∧ (supParams P).WF ∧
+    Gen.FactsC20IR.handleEventIR P c ev = handleEvent (supParams P) 0 c ev :=
+  ⟨by decide, ⟨fun _ _ m => List.Perm.refl m, fun h => by simp [supParams] at h⟩,
+    EgVerif.Lifecycle.handleEvent_regenerated_from_source P c ev⟩
+
+/-- `TrafficController._cleanSpace`, as translated from the source (probe `trafficGates`, probe
+`pipelines`, both empty ⇒ delete the namespace), is the model's `cleanSpace` on every consumer state. -/
+theorem cleanSpace_regenerated_from_source (c : CState) :
+    Gen.FactsC20IR.extractionFailed = false ∧ Gen.FactsC20IR.cleanSpaceIR c = cleanSpace c :=
+  ⟨by decide, EgVerif.Lifecycle.cleanSpace_regenerated_from_source c⟩
+
+/-- Non-vacuity: one snapshot that exercises every branch of the translated loops (7: kind change,
+8: body change, 9: disappears, 10: appears, 11: rejected yaml, 12: unchanged). -/
+example : Map.WF ([(7, ⟨0, 0, 0⟩), (8, ⟨1, 1, 5⟩), (9, ⟨0, 0, 0⟩), (12, ⟨2, 1, 1⟩)] : Map Name Entity) := by
+  simp [Map.WF]
+private def dex : Diff :=
+  Gen.FactsC20IR.applyConfigIR 3 [(7, ⟨0, 0, 0⟩), (8, ⟨1, 1, 5⟩), (9, ⟨0, 0, 0⟩), (12, ⟨2, 1, 1⟩)]
+    [(7, some (1, 0)), (8, some (1, 6)), (10, some (0, 0)), (11, none), (12, some (1, 1))]
+example :
+    dex.ents = [(12, ⟨2, 1, 1⟩), (7, ⟨3, 1, 0⟩), (8, ⟨3, 1, 6⟩), (10, ⟨3, 0, 0⟩)] ∧
+    dex.deleted = [(9, ⟨0, 0, 0⟩), (7, ⟨0, 0, 0⟩)] ∧
+    dex.created = [(7, ⟨3, 1, 0⟩), (10, ⟨3, 0, 0⟩)] ∧ dex.updated = [(8, ⟨3, 1, 6⟩)] := by decide
+example : (Gen.FactsC20IR.cleanSpaceIR ⟨[((0, 7), ⟨0, 4, 0⟩)], [], true⟩).ns = true ∧
+    (Gen.FactsC20IR.cleanSpaceIR ⟨[], [], true⟩).ns = false := by decide
+
+/-! ## shutdown -/
+
+/-- **Shutdown closes every live object exactly once.** After any history, `Supervisor.close` /
+`TrafficController.Close` / `Clean` (the model's `shutdown`, for every iteration order `ord` of the
+`sync.Map`s) adds for every name exactly one `close` of the object that was live for it — nothing for
+a name that was not live —, so that the name's complete log is a word of `(init inherit* close)*`
+after which NOTHING is live, and the consumer's maps are empty. -/
+theorem shutdown_closes_every_live_object_once (P : Params) (ok : P.WF) (h : List Item)
+    (wf : HistWF h) (ord : Map (Nat × Name) Entity → Map (Nat × Name) Entity)
+    (hord : ∀ m, (ord m).Perm m) (n : Name) :
+    let c := shutdown P ord (run P Sys.init h).w.cons
+    callsOf n c.log = callsOn P h n ++
+        (view P (specFinal n 0 false none h).1 (specFinal n 0 false none h).2).toList.map (callClose P n) ∧
+      Auto.run none (callsOf n c.log) = some none ∧ c.store = [] ∧ c.ns = false := by
+  intro c
+  obtain ⟨_, inv, fin⟩ := run_spec P ok n h Sys.init (inv_init P) wf
+  have swf : (run P Sys.init h).w.cons.store.WF := run_storeWF P h Sys.init Map.wf_nil
+  have h1 : (run P Sys.init h).w.attached = (specFinal n 0 false none h).1 := congrArg Prod.fst fin
+  have h2 : (run P Sys.init h).ents.get n = (specFinal n 0 false none h).2 := congrArg Prod.snd fin
+  have hc := shutdown_at P ord hord (run P Sys.init h) inv swf n
+  rw [h1, h2] at hc
+  refine ⟨hc, ?_, rfl, rfl⟩
+  show Auto.run none (callsOf n (shutdown P ord (run P Sys.init h).w.cons).log) = some none
+  rw [hc, Auto.run_append]
+  have hl := log_is_lifecycle_word P ok h wf n
+  unfold callsOn at hl
+  rw [hl]
+  cases view P (specFinal n 0 false none h).1 (specFinal n 0 false none h).2 with
+  | none => rfl
+  | some e => simp [Auto.run, Auto.step_close]
+
+/-- Objects closed at shutdown are exactly the live set: the closes `shutdown` adds are a permutation
+of one `close` per stored entry (no object is closed twice, none is skipped). -/
+theorem shutdown_closes_are_the_live_set (P : Params)
+    (ord : Map (Nat × Name) Entity → Map (Nat × Name) Entity) (hord : ∀ m, (ord m).Perm m) (c : CState) :
+    ∃ closes, (shutdown P ord c).log = c.log ++ closes ∧
+      closes.Perm (c.store.map (fun e => callClose P e.1.2 e.2)) :=
+  ⟨_, rfl, (hord c.store).map _⟩
+
+/-- Regenerated facts behind `shutdown`: `Supervisor.close` walks `businessControllers`,
+`TrafficController.Close` and `Clean` walk `trafficGates` then `pipelines`; each closure calls
+`CloseWithRecovery` exactly once per entry and always returns `true` (every entry is visited). -/
+theorem shutdown_source_facts :
+    Gen.FactsC20IR.extractionFailed = false ∧
+    Gen.FactsC20IR.shutdownRanges_Supervisor_close = ["businessControllers:close=1:continues=true"] ∧
+    Gen.FactsC20IR.shutdownRanges_TrafficController_Close =
+      ["trafficGates:close=1:continues=true", "pipelines:close=1:continues=true"] ∧
+    Gen.FactsC20IR.shutdownRanges_TrafficController_Clean =
+      ["trafficGates:close=1:continues=true", "pipelines:close=1:continues=true"] := by decide
+
 /-! ## Non-vacuity: a concrete history meeting the hypotheses, and the defect of the unrepaired code -/
 
 /-- kinds 0,1: business controllers; kinds 2,3: traffic gates. The consumer is the supervisor
@@ -458,6 +595,27 @@ example : callsOn Pex hex 7 =
      ⟨.init, 7, ⟨5, 0, 0⟩, none, false⟩] := by decide
 example : callsOn Pex hex 8 = [⟨.init, 8, ⟨0, 1, 5⟩, none, false⟩] := by decide
 example : held Pex hex 0 7 = some ⟨5, 0, 0⟩ ∧ held Pex hex 0 8 = some ⟨0, 1, 5⟩ := by decide
+
+/-- Non-vacuity of `applyConfig_notify_regenerated_from_source`: the supervisor's watcher (`Pex`: category 1 =
+kinds 0, 1) on the diff `dex`: 9 and the old 7 leave, the new 7 and 10 arrive, 8 is updated; the event is sent.
+A diff with nothing for this watcher sends nothing. -/
+example : Gen.FactsC20IR.notifyIR Pex [(7, ⟨0, 0, 0⟩), (8, ⟨1, 1, 5⟩), (9, ⟨0, 0, 0⟩)] dex.deleted dex.created dex.updated false =
+    ([(7, ⟨3, 1, 0⟩), (10, ⟨3, 0, 0⟩), (8, ⟨3, 1, 6⟩)],
+     (⟨[(9, ⟨0, 0, 0⟩), (7, ⟨0, 0, 0⟩)], [(7, ⟨3, 1, 0⟩), (10, ⟨3, 0, 0⟩)], [(8, ⟨3, 1, 6⟩)]⟩ : Event), true) := by decide
+example : (Gen.FactsC20IR.notifyIR Pex [] [(5, ⟨0, 2, 0⟩)] [] [] false).2.2 = false := by decide
+
+/-- Non-vacuity of `handleEvent_regenerated_from_source`: an event that deletes 9, creates 10 (and 8, which already
+exists: refused) and updates 8, on a supervisor holding 8 and 9. -/
+private def cex : CState := Gen.FactsC20IR.handleEventIR Pex ⟨[((0, 8), ⟨1, 1, 5⟩), ((0, 9), ⟨0, 0, 0⟩)], [], false⟩
+  ⟨[(9, ⟨0, 0, 0⟩)], [(10, ⟨3, 0, 0⟩), (8, ⟨3, 0, 0⟩)], [(8, ⟨3, 1, 6⟩)]⟩
+example : cex.store = [((0, 10), ⟨3, 0, 0⟩), ((0, 8), ⟨3, 1, 6⟩)] ∧
+    cex.log = [⟨.close, 9, ⟨0, 0, 0⟩, none, false⟩, ⟨.init, 10, ⟨3, 0, 0⟩, none, false⟩,
+      ⟨.inherit, 8, ⟨3, 1, 6⟩, some ⟨1, 1, 5⟩, true⟩] := by decide
+
+/-- Non-vacuity of the shutdown theorems: `hex` leaves 7 and 8 live; shutdown closes both, once. -/
+example : ((shutdown Pex (fun m => m) (run Pex Sys.init hex).w.cons).log.drop
+    (run Pex Sys.init hex).w.cons.log.length) =
+    [⟨.close, 8, ⟨0, 1, 5⟩, none, false⟩, ⟨.close, 7, ⟨5, 0, 0⟩, none, false⟩] := by decide
 
 /-- The loop body of `applyConfig` **before** the repair: a change of kind goes to `updated`. -/
 def diffStepUnrepaired (g : Nat) (d : Diff) (x : Name × Option (Kind × Body)) : Diff :=
